@@ -716,6 +716,10 @@ func goCode(root string, unit string) string {
 		header("Model.GoSem", "Model.GoSlices")
 		text, errs := translateSplicer(parseFile(root, "splicer/splicer.go"), parseFile(root, "pub/interfaces.go"), "Splicer", []string{"Harvest", "clone", "replenish", "microharvest"})
 		emit("splicer/splicer.go (element type, Harvest, clone, replenish, microharvest)", text, errs)
+	case "mime":
+		header("Model.GoSem")
+		text, errs := translateMime(parseFile(root, "mime/mime.go"), "MediaType", []string{"Default", "Unknown", "UnknownSubtype", "Parse", "Update", "Matches"})
+		emit("mime/mime.go (struct, constructors, Parse, Update, Matches)", text, errs)
 	default:
 		b.WriteString("-- unknown unit " + unit + "\n")
 	}
